@@ -4,7 +4,8 @@ every seeded change must be reported under its target property, every refactorin
 must stay silent (unless triaged). Does not touch meta.json — seeded/recheck.py and
 refactors/eval.py --recheck (which apply to /repo, one at a time) remain the reference runs.
 
-usage: regress.py [-j N] [seeded|refactors|features|<id> ...]
+usage: regress.py [-j N] [--write-meta] [seeded|refactors|features|<id> ...]
+--write-meta refreshes detected_by / reported in each meta.json from this run.
 """
 import json, os, shutil, subprocess, sys, tempfile, threading, queue
 REPO, VERIF = "/repo", "/verif"
@@ -30,6 +31,8 @@ def items(sel):
 
 def main():
     args = sys.argv[1:]
+    write_meta = "--write-meta" in args
+    args = [a for a in args if a != "--write-meta"]
     jobs = 6
     if "-j" in args:
         i = args.index("-j")
@@ -85,7 +88,17 @@ def main():
     bad = 0
     for (corpus, d) in work:
         rep = results.get((corpus, d), {"?": ["not run"]})
-        meta = json.load(open(os.path.join(VERIF, corpus, d, "meta.json")))
+        mp = os.path.join(VERIF, corpus, d, "meta.json")
+        meta = json.load(open(mp))
+        if write_meta and "?" not in rep:
+            head = sh(["git", "-C", REPO, "rev-parse", "--short", "HEAD"])[1].strip()
+            meta["checked_against"] = head
+            if corpus == "seeded":
+                meta["detected_by"], meta["detected"] = rep, bool(rep)
+                meta["detected_under_target_property"] = meta["property"] in rep
+            else:
+                meta["reported"] = rep
+            json.dump(meta, open(mp, "w"), indent=1)
         if corpus == "seeded":
             prop = meta["property"]
             if prop not in rep:
